@@ -8,6 +8,12 @@ PY = "/venv/bin/python"
 
 # id -> (technique, level text, level note, design ref)
 CHECKS = {
+    "C20": (
+        "Hypothesis over document histories (heading sequences, TOC position, outline level, fills interleaved with heading edits) against an independent outline-numbering model read from the lxml tree",
+        "For generated heading sequences (levels 1..10 in any order, skipped levels, texts with blanks/TAB/spans) the index body after every fill must list exactly the headings within the outline level, each as '<number> <heading text>' per an independent counter model, keep the title, be idempotent under a second fill, and agree with the odfdo-headers tool output.",
+        "Skipped-level numbering follows odfdo's documented convention; headings carry no notes.",
+        "DESIGN.md 3/C20",
+    ),
     "C10": (
         "Hypothesis over twin histories (object, clone, interleaved operation sequences) with byte-equality of the untouched twin's serialisation and the grid model / expected content for the operated twin as oracles",
         "Tables (with warmed caches and repeated runs), rows, cells, paragraphs, XML parts, containers and whole documents (opened lazily by path, from BytesIO, from a folder, with unsaved edits) are cloned; the clone must equal the original at birth, cloning must not change the original, and no generated operation on one twin may be observable on the other.",
